@@ -6,7 +6,7 @@ import numpy as np
 
 RULE = ("cases = every collinear tree within the bounds (chains with the root at one end, roots with one arm on either side; radii 1..3, every "
         "admissible integer spacing up to max radius + 1: tangent, overlapping and disjoint neighbours) at accuracy levels 1, 2, 3, 4 (5, 6, 8, 9 for "
-        "a sample of two-armed roots, mirror-symmetric ones included, where the Monte-Carlo pair term is exactly zero), levels 3-4 again at 2^20 / 2^21 from the origin, each at one of 7 placements and 3 length units, through get_volume and the "
+        "a sample of two-armed roots, mirror-symmetric ones included, where the Monte-Carlo pair term is exactly zero), levels 3-4 again at 2^20 / 2^21 from the origin, each at one of 7 placements and 3 length units, a third of them renumbered so that children precede their parents, through get_volume and the "
         "feature extractor; plus random trees of any shape on a lattice at levels 1 and 2; non-trivial = at least two nodes whose balls overlap or "
         "unequal radii; distinct by (tree, level)")
 UNITS = [1.0, 0.5, 0.37]
@@ -37,7 +37,16 @@ def execute(c):
         xyz = [o + d * (row[1] * u) for row in t]
     else:
         xyz = [np.array(p, dtype=np.float64) * u for p in c["xyz"]]
-    tree = mk([row[0] for row in t], xyz, [row[2] * u for row in t])
+    pid, rad = [row[0] for row in t], [row[2] * u for row in t]
+    if lib.vid(c) % 3 == 1 and len(t) > 2:
+        # the same tree under another numbering (root stays 0, the other nodes in reverse order: children then precede their parents)
+        n = len(t)
+        new = [0] + [n - i for i in range(1, n)]                 # old id -> new id
+        old = sorted(range(n), key=lambda i: new[i])             # new id -> old id
+        pid = [(-1 if pid[o] == -1 else new[pid[o]]) for o in old]
+        xyz = [xyz[o] for o in old]
+        rad = [rad[o] for o in old]
+    tree = mk(pid, xyz, rad)
     is_chain = all(sum(1 for row in t if row[0] == i) <= 1 for i in range(len(t)))
     if c["level"] >= 3 and is_chain and lib.vid(c) % 5 == 0:
         v = float(extract_feature(tree).get("volume")[0])          # default accuracy; no pair term on a chain
